@@ -37,6 +37,14 @@ def put(s, tag, body):
     if b in s:
         return s[:s.index(b) + len(b)] + "\n" + body + "\n" + s[s.index(e):]
     return s
-s = put(s, "FINDINGS", findings); s = put(s, "SEEDED", seeded)
+props = {}
+for f in sorted(glob.glob(V + "/props.d/*.json")):
+    props.update(json.load(open(f)))
+ab = []
+for pid in sorted(props):
+    e = props[pid]
+    parts = ", ".join("`%s:%s`%s" % (x["pkg"].replace("pkg/", ""), x["test"], " (-race in thorough)" if x.get("race_thorough") else (" (-race)" if x.get("race") else "")) for x in e["parts"])
+    ab.append("**%s** (%s) — %s\n\n*Assumes / trusted base:* %s\n\n*Parts:* %s; notes: %s\n" % (pid, e.get("level", "exploration"), e.get("text", "").strip(), e.get("note", "").strip() or "–", parts, ("`notes/%s.md`" % pid) if os.path.exists(V + "/notes/%s.md" % pid) else "–"))
+s = put(s, "FINDINGS", findings); s = put(s, "SEEDED", seeded); s = put(s, "ASBUILT", "\n".join(ab))
 open(V + "/DESIGN.md", "w").write(s)
 print("findings rows", len(out) - 2, "seeded rows", len(rows) - 2)
